@@ -54,6 +54,10 @@ def gcda_sequences(rng, singles, merged, gcno=None):
             seqs.append(("mismatch:foreign_function", [d1, ff] if rng.random() < 0.5 else [ff, d1]))
         for (wi, _old) in ids[:3]:
             seqs.append(("mismatch:ident", [G.put_word(d1, wi, G.absent_ident(known))]))
+    # the version word differs from the gcno's only in the release-status character: not the same version
+    for ch in STATUS_CHARS[:2] + [rng.choice(STATUS_CHARS[2:])]:
+        m = with_status(d1, ch)
+        seqs.append(("mismatch:status=%d" % ch, [m] if rng.random() < 0.5 else [d1, m]))
     # the file stamp (checksum word) of the gcda replaced by boundary values, 0 included: rejected unless equal to the gcno's
     stamp = G.words(d1, d1[:4] == b"adcg")[2]
     for v in (0, 1, 2**31, 2**32 - 1):
@@ -62,6 +66,15 @@ def gcda_sequences(rng, singles, merged, gcno=None):
             ds.insert(rng.randrange(0, 2), G.put_word(d1, 2, v))
             seqs.append(("mismatch:stamp=%d" % v, ds if rng.random() < 0.5 else [G.put_word(d1, 2, v)]))
     return seqs
+
+
+def with_status(buf, ch):
+    """the version word with its release-status character ('*') replaced: `408*` -> `408e`; little- and big-endian files"""
+    i = 4 if buf[:4] in (b"oncg", b"adcg") else 7
+    return buf[:i] + bytes([ch]) + buf[i + 1:]
+
+
+STATUS_CHARS = [ord("e"), ord("p"), ord("A"), ord("+"), 0]
 
 
 def stamp_zero_source(src):
@@ -282,6 +295,26 @@ def run(chk):
         for qi, (law, ds) in enumerate(seqs):
             cases.append(G.case(src["gcno"], ds, True))
             index.append((si, qi))
+    # gcno whose version word carries another status character than '*': not a version grcov reads, with or without gcda
+    status_cases = []
+    for src in [s_ for s_ in sources if not s_["label"].startswith(("synth", "flow")) and "+stamp0" not in s_["label"]][:14]:
+        for ch in STATUS_CHARS[:2] + [chk.rng.choice(STATUS_CHARS[2:])]:
+            g2 = with_status(src["gcno"], ch)
+            for ds in ([], [with_status(src["singles"][0], ch)] if src["singles"] else []):
+                c_ = G.case(g2, ds, True)
+                c_["law"] = "mismatch:gcno_status=%d" % ch
+                status_cases.append(c_)
+    st_impl = G.run_guarded(status_cases, chk.pid)
+    st_model = G.run_model(chk.pid, status_cases[::3], fn="class_gcno", shard_size=60)
+    for c_, r_ in zip(status_cases, st_impl):
+        chk.count()
+        if "err" not in r_:
+            chk.violation({"kind": "oracle", "engine": "gcno", "case": c_, "impl": r_, "law": c_["law"],
+                           "clause": "a version word that differs from a gcov version only in the release-status character is not accepted (gcno side)"}, tag="law")
+    for c_, r_, m_ in zip(status_cases[::3], st_impl[::3], st_model):
+        if not (isinstance(m_, tuple) and m_ and m_[0] == "@@ERROR") and G.MODEL_CLASS.get(m_) != G.klass(r_):
+            chk.violation({"kind": "correspondence", "engine": "gcno", "case": c_, "impl": r_, "model": G.MODEL_CLASS.get(m_),
+                           "theorems_at_stake": "C15_* (Model/GcnoRead.v read_version no longer describes the reader)"}, has_input=False, tag="corr")
     impl = G.run_guarded(cases, chk.pid)
     per = {}
     for ci, ((si, qi), r) in enumerate(zip(index, impl)):
@@ -336,7 +369,7 @@ def run(chk):
     chk.cov["rule"] = ("gcno sources: the 8 small checked-in fixtures (LLVM 4.2, GCC 6-10) and big-endian twins of the three LLVM ones, synthesised CFGs (parallel arcs, fake/tree flags, multi-block lines, "
                        "counters from a boundary pool up to 2^63) in versions *204 and *804, and programs generated from a seeded C grammar compiled with clang-14 --coverage (gcov format version rotating over 408*, 407*, 402*, 409*, 406*, 404*; every second program also as a big-endian twin) and "
                        "run 1-3 times (one gcda per run plus the runtime-merged one); per source the gcda lists: none, one, 2 and 3 copies, permutations with repetitions, merged, "
-                       "and lists containing a gcda with a flipped version / checksum / function-checksum word at a random position, the gcda stamp word replaced by 0, 1, 2^31, 2^32-1, and (for the fixtures and some programs) the gcno stamp set to 0 against the original gcda (rejected) and against a gcda with stamp 0 (accepted); every law of the property is evaluated on "
+                       "and lists containing a gcda with a flipped version / checksum / function-checksum word at a random position, the gcda stamp word replaced by 0, 1, 2^31, 2^32-1, the release-status character of the version word replaced by e / p / other bytes on the gcda side and on the gcno side, and (for the fixtures and some programs) the gcno stamp set to 0 against the original gcda (rejected) and against a gcda with stamp 0 (accepted); every law of the property is evaluated on "
                        "Gcno::compute's results, and the Gallina model is run on the same bytes (full result equality); non-trivial = k-copies cases with a non-zero count and "
                        "permutation groups with at least two orders")
     chk.cov["trusted_base"] = ["Coq kernel; vm_compute for the correspondence", "impl_run harness (hex transport, sorting of the result vector)",
